@@ -35,7 +35,11 @@ pub fn filters_of(fs: &Value) -> Vec<BodyFilter> {
                     value: s(f, "value"),
                     inner_value: None,
                     element_tree: f["path"].as_array().unwrap().iter().map(|x| x.as_str().unwrap().to_string()).collect(),
-                    css_selector: if s(f, "sel") == "none" { None } else { Some(".x".to_string()) },
+                    css_selector: match s(f, "sel").as_str() {
+                        "none" => None,
+                        "x" => Some(".x".to_string()),
+                        name => Some(format!("{}.x", name)),
+                    },
                     id: None,
                     target_hash: None,
                 }),
